@@ -195,25 +195,26 @@ func discharge(o *Oblig, lits []*Term, workDir string, idx int, tsec int, allAgr
 		return v
 	}
 	nUnsat := 0
-	if !qf && !allAgree {
+	// staged attempts: each stage only drops or instantiates hypotheses, so a proof at any stage is a proof of the obligation
+	staged := func(scale int) bool {
 		// attempt 1: the full obligation with a short budget (most discharge at once)
-		first, out, secs := runSolver(backends[0], file, 2)
+		first, out, secs := runSolver(backends[0], file, 2*scale)
 		v.Seconds += secs
 		if first == "unsat" {
 			v.Status, v.Backend = "discharged", backends[0].name
 			rmQuery(file)
-			return v
+			return true
 		}
 		if first == "sat" {
 			v.Status, v.Backend, v.Output = "failed", backends[0].name, truncate(out, 20000)
-			return v
+			return true
 		}
 		// attempt 1b: only the quantified hypotheses that share a symbol with the goal (dropping hypotheses only weakens what is
 		// assumed, so a proof from a subset is a proof); unrelated invariants otherwise derail instantiation
 		if o2 := relevantVersion(o); o2 != nil {
 			f2 := file + ".rel.smt2"
 			os.WriteFile(f2, []byte(smtText(o2, lits, false)), 0o644)
-			first, _, secs := runSolver(backends[0], f2, 3)
+			first, _, secs := runSolver(backends[0], f2, 3*scale)
 			v.Seconds += secs
 			v.Tried = append(v.Tried, "z3-new(relevant):"+first)
 			rmQuery(f2)
@@ -221,7 +222,7 @@ func discharge(o *Oblig, lits []*Term, workDir string, idx int, tsec int, allAgr
 				v.Status = "discharged"
 				v.Backend = "z3-new (relevant hypotheses)"
 				rmQuery(file)
-				return v
+				return true
 			}
 		}
 		// attempt 1c: case split on the most frequent ground if-then-else condition (e.g. "append reallocates or not"): both
@@ -231,12 +232,12 @@ func discharge(o *Oblig, lits []*Term, workDir string, idx int, tsec int, allAgr
 			for ci, oc := range cases {
 				f2 := fmt.Sprintf("%s.case%d.smt2", file, ci)
 				os.WriteFile(f2, []byte(smtText(oc, lits, false)), 0o644)
-				first, _, secs := runSolver(backends[0], f2, 3)
+				first, _, secs := runSolver(backends[0], f2, 3*scale)
 				v.Seconds += secs
 				if first != "unsat" {
 					if rv := relevantVersion(oc); rv != nil {
 						os.WriteFile(f2, []byte(smtText(rv, lits, false)), 0o644)
-						first, _, secs = runSolver(backends[0], f2, 3)
+						first, _, secs = runSolver(backends[0], f2, 3*scale)
 						v.Seconds += secs
 					}
 				}
@@ -251,7 +252,7 @@ func discharge(o *Oblig, lits []*Term, workDir string, idx int, tsec int, allAgr
 				v.Status = "discharged"
 				v.Backend = "z3-new (case split)"
 				rmQuery(file)
-				return v
+				return true
 			}
 		}
 		// attempt 2: the quantifier-free version built by ground instantiation (see instantiate.go)
@@ -264,7 +265,7 @@ func discharge(o *Oblig, lits []*Term, workDir string, idx int, tsec int, allAgr
 			}
 			f2 := file + ".ground.smt2"
 			os.WriteFile(f2, []byte(smtText(g, qfLits, false)), 0o644)
-			first, _, secs := runSolver(backends[0], f2, 6)
+			first, _, secs := runSolver(backends[0], f2, 6*scale)
 			v.Seconds += secs
 			v.Tried = append(v.Tried, "z3-new(ground):"+first)
 			rmQuery(f2)
@@ -272,8 +273,14 @@ func discharge(o *Oblig, lits []*Term, workDir string, idx int, tsec int, allAgr
 				v.Status = "discharged"
 				v.Backend = "z3-new (ground instances)"
 				rmQuery(file)
-				return v
+				return true
 			}
+		}
+			return false
+	}
+	if !qf && !allAgree {
+		if staged(1) {
+			return v
 		}
 	}
 	portfolio := backends[:3]
@@ -305,6 +312,13 @@ func discharge(o *Oblig, lits []*Term, workDir string, idx int, tsec int, allAgr
 			return v
 		default:
 			v.Output = truncate(out, 2000)
+		}
+	}
+	if allAgree && nUnsat == 0 && !qf && v.Status != "failed" {
+		// thorough tier: no back end decided the whole query within its budget; the staged attempts of the quick tier (with
+		// larger budgets) are still sound proofs
+		if staged(3) {
+			return v
 		}
 	}
 	if nUnsat == 0 && !qf && !o.ExpectFail {
